@@ -7,7 +7,7 @@ use crate::planners::{dir_name, AnyPlanner, Kind, ALL_KINDS, DIRS};
 use crate::real::{all_finite, any_finite, bits_equal, err_q, gen_input, phase_digest, to_cdd, Real, ERRQ_SAT, FAMILIES};
 use crate::refdft::{self, CDD};
 use crate::types::DD;
-use crate::util::{big_lengths, structured_lengths};
+use crate::util::{big_lengths, rader_primes, structured_lengths};
 use rustfft::num_complex::Complex;
 use rustfft::num_traits::Zero;
 use rustfft::FftDirection;
@@ -55,12 +55,13 @@ fn blocks(n_min: usize, n_max: usize, block: usize, structured_max: usize, per_b
 // ------------------------------------------------------------------------------------------------
 // C01 / C02: accuracy against the double-double reference
 // ------------------------------------------------------------------------------------------------
-fn accuracy_block<T: Real + Elem>(ctx: &mut Ctx, lens: &[usize], c02: bool) {
+fn accuracy_block<T: Real + Elem>(ctx: &mut Ctx, lens: &[usize], c02: bool, light: bool) {
     let mut pls = planners_for::<T>(ctx);
     let basis_full = if ctx.quick() { 32 } else { 64 };
     let basis_some = if ctx.quick() { 128 } else { 256 };
     for &n in lens {
-        for d in DIRS {
+        let dirs: Vec<FftDirection> = if light { vec![DIRS[n % 2]] } else { DIRS.to_vec() };
+        for d in dirs {
             // plan with every planner
             let mut planned: Vec<(Kind, Planned<T>)> = Vec::new();
             for (pid, p) in pls.iter_mut() {
@@ -71,7 +72,9 @@ fn accuracy_block<T: Real + Elem>(ctx: &mut Ctx, lens: &[usize], c02: bool) {
                 }
             }
             // dense / structured vectors with references
-            let fams: Vec<&str> = if c02 {
+            let fams: Vec<&str> = if light {
+                vec!["uniform"]
+            } else if c02 {
                 FAMILIES.iter().copied().filter(|f| *f != "impulse").collect()
             } else {
                 vec!["uniform", ["constant", "tone_on", "alternating", "normal"][n % 4]]
@@ -80,7 +83,13 @@ fn accuracy_block<T: Real + Elem>(ctx: &mut Ctx, lens: &[usize], c02: bool) {
                 let x: Vec<Complex<T>> = gen_input(fam, n, 1 + n / 3, &mut ctx.rng);
                 let reference = refdft::fft(&to_cdd(&x), is_inv(d));
                 for (ki, (_kind, pl)) in planned.iter().enumerate() {
-                    let entries: Vec<Entry> = if fi == 0 { ALL_ENTRIES.to_vec() } else { vec![ALL_ENTRIES[(n + ki + fi) % 4]] };
+                    let entries: Vec<Entry> = if light {
+                        vec![ALL_ENTRIES[(n + ki) % 4], ALL_ENTRIES[(n + ki + 2) % 4]]
+                    } else if fi == 0 {
+                        ALL_ENTRIES.to_vec()
+                    } else {
+                        vec![ALL_ENTRIES[(n + ki + fi) % 4]]
+                    };
                     for e in entries {
                         let scratch = vec![czero::<T>(); pl.adv[e.scratch_index()]];
                         let out = vec![czero::<T>(); if e.two_buffers() { n } else { 0 }];
@@ -149,9 +158,26 @@ pub fn run_accuracy(ctx: &mut Ctx, c02: bool) {
                 continue;
             }
             if elem == "f32" {
-                accuracy_block::<f32>(ctx, b, c02);
+                accuracy_block::<f32>(ctx, b, c02, false);
             } else {
-                accuracy_block::<f64>(ctx, b, c02);
+                accuracy_block::<f64>(ctx, b, c02, false);
+            }
+        }
+    }
+    // every Rader-friendly prime (p-1 is 11-smooth) of the octaves above 2^16: one direction, one dense vector, two entries
+    let (plo, phi) = if ctx.quick() { (1u64 << 16, 1u64 << 17) } else { (1u64 << 16, 1u64 << 20) };
+    for p in rader_primes(plo, phi) {
+        for elem in ["f32", "f64"] {
+            let idx = item;
+            item += 1;
+            let label = format!("acc-rader-prime {} n={}", elem, p);
+            if !ctx.scenario(idx, &label) {
+                continue;
+            }
+            if elem == "f32" {
+                accuracy_block::<f32>(ctx, &[p as usize], c02, true);
+            } else {
+                accuracy_block::<f64>(ctx, &[p as usize], c02, true);
             }
         }
     }
@@ -245,7 +271,11 @@ fn roundtrip_block<T: Real + Elem>(ctx: &mut Ctx, lens: &[usize]) {
 
 pub fn run_c06(ctx: &mut Ctx) {
     let (n_max, s_max) = if ctx.quick() { (1024, 1 << 20) } else { (8192, 1 << 22) };
-    let bl = blocks(1, n_max, 16, s_max, 1);
+    let mut bl = blocks(1, n_max, 16, s_max, 1);
+    let (plo, phi) = if ctx.quick() { (1u64 << 15, 1u64 << 18) } else { (1u64 << 14, 1u64 << 20) };
+    for p in rader_primes(plo, phi) {
+        bl.push(vec![p as usize]);
+    }
     let mut item = 0usize;
     for b in &bl {
         for elem in ["f32", "f64"] {
